@@ -100,6 +100,21 @@ def DistantStable (L : Lexer τ) (w : Bytes) : Prop :=
     L.tok (x.drop n) = some (t2, n2) → 0 < n2 → n + n2 ≤ j → j ≤ x.length →
     L.tok (insertAt x j w) = some (t, n)
 
+/-- **(A′)** like (A), for texts `x` that satisfy a side condition `good` (a property of the text that starts
+    at the token, e.g. "the float lexer did not give up on an `x` suffix here") -/
+def AdjacentStableIf (L : Lexer τ) (w : Bytes) (good : Bytes → Prop) (t : τ) : Prop :=
+  ∀ x n, good x → L.tok x = some (t, n) → 0 < n → n ≤ x.length → L.tok (x.take n ++ w ++ x.drop n) = some (t, n)
+
+/-- **(D′)** like (D), but only claimed when the token that follows is itself unchanged in the edited text (which
+    the induction provides) and `x` satisfies the side condition.  A look-ahead of one whole token (`<`, `>`) and
+    lexers whose answer for the following token depends on the inserted text (`/` followed by a comment) fit
+    this form; they do not fit (D). -/
+def DistantStableIf (L : Lexer τ) (w : Bytes) (good : Bytes → Prop) : Prop :=
+  ∀ x t n t2 n2 j, good x → L.tok x = some (t, n) → 0 < n → n ≤ x.length →
+    L.tok (x.drop n) = some (t2, n2) → 0 < n2 → n + n2 ≤ j → j ≤ x.length →
+    L.tok (insertAt (x.drop n) (j - n) w) = some (t2, n2) →
+    L.tok (insertAt x j w) = some (t, n)
+
 theorem insertAt_zero (x w : Bytes) : insertAt x 0 w = w ++ x := by simp [insertAt]
 
 theorem insertAt_split (x w : Bytes) (n j : Nat) (hn : n ≤ j) (hj : j ≤ x.length) :
@@ -141,13 +156,15 @@ theorem filter_all_after (i off : Nat) (toks : List (Spanned τ))
     have := h t ht
     simp; omega
 
-/-- **Insertion at a token boundary.** If `x` lexes to `toks`, `i` is an allowed boundary, and the
-    lexer satisfies (T), (A) for allowed tokens and (D) for `w`, then `x` with `w` inserted at `i` lexes
-    to: the tokens before `i` unchanged, the trivia tokens, the tokens after `i` moved by `|w|`. -/
-theorem lexBytes_insert (L : Lexer τ) (w : Bytes) (ws : List (τ × Nat)) (allowed : τ → Prop)
-    (hT : LexesAs L w ws) (hA : ∀ t, allowed t → AdjacentStable L w t) (hD : DistantStable L w)
+/-- **Insertion at a token boundary (general form).** If `x` lexes to `toks`, `i` is an allowed boundary, the
+    text at the start of every token that ends at or before `i` satisfies the side condition `good`, and the lexer
+    satisfies (T), (A′) for allowed tokens and (D′) for `w`, then `x` with `w` inserted at `i` lexes to: the tokens
+    before `i` unchanged, the trivia tokens, the tokens after `i` moved by `|w|`. -/
+theorem lexBytes_insert_if (L : Lexer τ) (w : Bytes) (ws : List (τ × Nat)) (allowed : τ → Prop) (good : Bytes → Prop)
+    (hT : LexesAs L w ws) (hA : ∀ t, allowed t → AdjacentStableIf L w good t) (hD : DistantStableIf L w good)
     (x : Bytes) (off i : Nat) (toks : List (Spanned τ))
-    (h : lexBytes L x off = .ok toks) (hb : BoundaryOK allowed off i toks) :
+    (h : lexBytes L x off = .ok toks) (hb : BoundaryOK allowed off i toks)
+    (hg : ∀ t ∈ toks, t.stop ≤ i → good (x.drop (t.start - off))) :
     lexBytes L (insertAt x (i - off) w) off =
       .ok (beforeB i toks ++ spansFrom ws i ++ (afterB i toks).map (Spanned.shift w.length)) := by
   induction hlen : x.length using Nat.strongRecOn generalizing x off toks with
@@ -171,7 +188,7 @@ theorem lexBytes_insert (L : Lexer τ) (w : Bytes) (ws : List (τ × Nat)) (allo
             simp only at hui hua
             have hi' : i - off = n := by omega
             have hf := filter_all_after i (off + n) rest (fun t ht => ⟨(hrest t ht).1, (hrest t ht).2.1⟩) (by omega)
-            have htok := hA t hua x n ht hn hle
+            have htok := hA t hua x n (by have := hg ⟨t, off, off + n⟩ (by simp) (by simp; omega); simpa using this) ht hn hle
             have hins : insertAt x n w = x.take n ++ w ++ x.drop n := rfl
             have hne : insertAt x n w ≠ [] := by
               intro he
@@ -205,7 +222,14 @@ theorem lexBytes_insert (L : Lexer τ) (w : Bytes) (ws : List (τ × Nat)) (allo
             have hige : off + n < i := by omega
             have hile : i ≤ off + x.length := by rw [hdl] at hur; omega
             have hbr : BoundaryOK allowed (off + n) i rest := Or.inr ⟨u, hu', hui, hua⟩
-            have hrec := ih _ hl (x.drop n) (off + n) rest hr hbr rfl
+            have hgr : ∀ t' ∈ rest, t'.stop ≤ i → good ((x.drop n).drop (t'.start - (off + n))) := by
+              intro t' ht' hst
+              have h1 := hg t' (List.mem_cons_of_mem _ ht') hst
+              have h2 := (hrest t' ht').1
+              rw [List.drop_drop]
+              have e : n + (t'.start - (off + n)) = t'.start - off := by omega
+              rw [e]; exact h1
+            have hrec := ih _ hl (x.drop n) (off + n) rest hr hbr hgr rfl
             -- the next token
             rcases lexBytes_ok_inv L (x.drop n) (off + n) rest hr with ⟨_, rfl⟩ | ⟨t2, n2, rest2, _, ht2, hn2, _, _, rfl⟩
             · cases hu'
@@ -223,7 +247,26 @@ theorem lexBytes_insert (L : Lexer τ) (w : Bytes) (ws : List (τ × Nat)) (allo
                     omega
               have hj : i - off ≤ x.length := by omega
               have hnj : n ≤ i - off := by omega
-              have hstable := hD x t n t2 n2 (i - off) ht hn hle ht2 hn2 (by omega) hj
+              have hgx : good x := by
+                have := hg ⟨t, off, off + n⟩ (by simp) (by simp; omega)
+                simpa using this
+              -- the following token is unchanged in the edited rest (first step of `hrec`)
+              have hnext : L.tok (insertAt (x.drop n) (i - off - n) w) = some (t2, n2) := by
+                have e : i - off - n = i - (off + n) := by omega
+                rw [e]
+                have hb2 : beforeB i (⟨t2, off + n, off + n + n2⟩ :: rest2) =
+                    ⟨t2, off + n, off + n + n2⟩ :: beforeB i rest2 := by
+                  unfold beforeB
+                  rw [List.filter_cons]
+                  have : (decide ((⟨t2, off + n, off + n + n2⟩ : Spanned τ).stop ≤ i)) = true := by simp; omega
+                  rw [this, if_pos rfl]
+                rw [hb2] at hrec
+                rcases lexBytes_ok_inv L _ _ _ hrec with ⟨_, hnil⟩ | ⟨t', n', rest', _, ht', _, _, _, heq⟩
+                · simp at hnil
+                · simp only [List.cons_append, List.cons.injEq, Spanned.mk.injEq] at heq
+                  have hn' : n' = n2 := by omega
+                  rw [ht', heq.1.1, hn']
+              have hstable := hD x t n t2 n2 (i - off) hgx ht hn hle ht2 hn2 (by omega) hj hnext
               obtain ⟨htk, hdr⟩ := take_insertAt_prefix x w n (i - off) hnj hj
               have hne : insertAt x (i - off) w ≠ [] := by
                 intro he
@@ -248,6 +291,18 @@ theorem lexBytes_insert (L : Lexer τ) (w : Bytes) (ws : List (τ × Nat)) (allo
                 rw [this]; simp
               rw [hb1, ha1]
               simp [consOk]
+
+/-- **Insertion at a token boundary.** The special case without side condition, with (A) and (D). -/
+theorem lexBytes_insert (L : Lexer τ) (w : Bytes) (ws : List (τ × Nat)) (allowed : τ → Prop)
+    (hT : LexesAs L w ws) (hA : ∀ t, allowed t → AdjacentStable L w t) (hD : DistantStable L w)
+    (x : Bytes) (off i : Nat) (toks : List (Spanned τ))
+    (h : lexBytes L x off = .ok toks) (hb : BoundaryOK allowed off i toks) :
+    lexBytes L (insertAt x (i - off) w) off =
+      .ok (beforeB i toks ++ spansFrom ws i ++ (afterB i toks).map (Spanned.shift w.length)) :=
+  lexBytes_insert_if L w ws allowed (fun _ => True) hT
+    (fun t ht x n _ h1 h2 h3 => hA t ht x n h1 h2 h3)
+    (fun x t n t2 n2 j _ h1 h2 h3 h4 h5 h6 h7 _ => hD x t n t2 n2 j h1 h2 h3 h4 h5 h6 h7)
+    x off i toks h hb (fun _ _ _ => trivial)
 
 /-- at a token boundary no token straddles `i`: the tokens are those ending at or before `i` followed
     by those starting at or after `i` -/
@@ -401,17 +456,19 @@ theorem lexBytes_shift_err (L : Lexer τ) (x : Bytes) (off d : Nat) (e : LexErr)
 /-- **Insertion at a token boundary of a text the lexer rejects.** `i` is the start of the text or the
     end of one of the tokens lexed before the failure (after which insertion is allowed).  The edited
     text is rejected too, for the same reason, at the moved offset. -/
-theorem lexBytes_insert_error (L : Lexer τ) (w : Bytes) (ws : List (τ × Nat)) (allowed : τ → Prop)
-    (hT : LexesAs L w ws) (hA : ∀ t, allowed t → AdjacentStable L w t) (hD : DistantStable L w)
+theorem lexBytes_insert_error_if (L : Lexer τ) (w : Bytes) (ws : List (τ × Nat)) (allowed : τ → Prop) (good : Bytes → Prop)
+    (hT : LexesAs L w ws) (hA : ∀ t, allowed t → AdjacentStableIf L w good t) (hD : DistantStableIf L w good)
     (x : Bytes) (off i : Nat) (e : LexErr)
-    (h : lexBytes L x off = .error e) (hb : BoundaryOK allowed off i (lexPrefix L x off)) :
-    lexBytes L (insertAt x (i - off) w) off = .error (e.shift w.length) := by
+    (h : lexBytes L x off = .error e) (hb : BoundaryOK allowed off i (lexPrefix L x off))
+    (hg : ∀ t ∈ lexPrefix L x off, t.stop ≤ i → good (x.drop (t.start - off))) :
+    lexBytes L (insertAt x (i - off) w) off = .error (e.shift w.length) ∧
+      (∀ t n, i ≠ off → L.tok x = some (t, n) → 0 < n → n ≤ x.length → L.tok (insertAt x (i - off) w) = some (t, n)) := by
   induction hlen : x.length using Nat.strongRecOn generalizing x off with
   | _ len ih =>
     by_cases hi : i = off
     · subst hi
       rw [Nat.sub_self, insertAt_zero, hT x i, lexBytes_shift_err L x i w.length e h]
-      rfl
+      exact ⟨rfl, fun _ _ hne => absurd rfl hne⟩
     · rcases hb with hb | ⟨u, hu, hui, hua⟩
       · exact absurd hb hi
       · rcases lexBytes_err_inv L x off e h with ⟨hnil, _, _⟩ | ⟨t, n, hx, ht, hn, hle, hr, hpre⟩
@@ -423,7 +480,10 @@ theorem lexBytes_insert_error (L : Lexer τ) (w : Bytes) (ws : List (τ × Nat))
           rcases List.mem_cons.1 hu with rfl | hu'
           · simp only at hui hua
             have hi' : i - off = n := by omega
-            have htok := hA t hua x n ht hn hle
+            have hgx : good x := by
+              have := hg ⟨t, off, off + n⟩ (by rw [hpre]; simp) (by simp; omega)
+              simpa using this
+            have htok := hA t hua x n hgx ht hn hle
             have hins : insertAt x n w = x.take n ++ w ++ x.drop n := rfl
             have hne : insertAt x n w ≠ [] := by
               intro he
@@ -439,13 +499,26 @@ theorem lexBytes_insert_error (L : Lexer τ) (w : Bytes) (ws : List (τ × Nat))
               have := List.drop_length_add_append (l₁ := x.take n) (l₂ := w ++ x.drop n) 0
               simpa [hl2] using this
             rw [hd, hT (x.drop n) (off + n), lexBytes_shift_err L (x.drop n) (off + n) w.length e hr]
-            rfl
+            refine ⟨rfl, ?_⟩
+            intro t' n' _ ht' _ _
+            rw [ht] at ht'
+            cases ht'
+            rw [hins] at *
+            exact htok
           · have hur := hrest u hu'
             have hige : off + n < i := by omega
             have hile : i ≤ off + x.length := by rw [hdl] at hur; omega
             have hbr : BoundaryOK allowed (off + n) i (lexPrefix L (x.drop n) (off + n)) :=
               Or.inr ⟨u, hu', hui, hua⟩
-            have hrec := ih _ hl (x.drop n) (off + n) hr hbr rfl
+            have hgr : ∀ t' ∈ lexPrefix L (x.drop n) (off + n), t'.stop ≤ i →
+                good ((x.drop n).drop (t'.start - (off + n))) := by
+              intro t' ht' hst
+              have h1 := hg t' (by rw [hpre]; exact List.mem_cons_of_mem _ ht') hst
+              have h2 := (hrest t' ht').1
+              rw [List.drop_drop]
+              have e2 : n + (t'.start - (off + n)) = t'.start - off := by omega
+              rw [e2]; exact h1
+            have hrec := ih _ hl (x.drop n) (off + n) hr hbr hgr rfl
             -- the next token exists because the prefix of the rest is not empty
             rcases lexBytes_err_inv L (x.drop n) (off + n) e hr with ⟨hnil, _, _⟩ | ⟨t2, n2, _, ht2, hn2, _, _, hpre2⟩
             · rw [hnil] at hu'; cases hu'
@@ -457,7 +530,14 @@ theorem lexBytes_insert_error (L : Lexer τ) (w : Bytes) (ws : List (τ × Nat))
                   omega
               have hj : i - off ≤ x.length := by omega
               have hnj : n ≤ i - off := by omega
-              have hstable := hD x t n t2 n2 (i - off) ht hn hle ht2 hn2 (by omega) hj
+              have hgx : good x := by
+                have := hg ⟨t, off, off + n⟩ (by rw [hpre]; simp) (by simp; omega)
+                simpa using this
+              have hnext : L.tok (insertAt (x.drop n) (i - off - n) w) = some (t2, n2) := by
+                have e4 : i - off - n = i - (off + n) := by omega
+                rw [e4]
+                exact hrec.2 t2 n2 (by omega) ht2 hn2 (by assumption)
+              have hstable := hD x t n t2 n2 (i - off) hgx ht hn hle ht2 hn2 (by omega) hj hnext
               obtain ⟨_, hdr⟩ := take_insertAt_prefix x w n (i - off) hnj hj
               have hne : insertAt x (i - off) w ≠ [] := by
                 intro he
@@ -468,7 +548,22 @@ theorem lexBytes_insert_error (L : Lexer τ) (w : Bytes) (ws : List (τ × Nat))
               have hlen2 : n ≤ (insertAt x (i - off) w).length := by rw [length_insertAt]; omega
               rw [lexBytes_step L (insertAt x (i - off) w) off t n hne hstable hn hlen2, hdr]
               have e3 : i - off - n = i - (off + n) := by omega
-              rw [e3, hrec]
-              rfl
+              rw [e3, hrec.1]
+              refine ⟨rfl, ?_⟩
+              intro t' n' _ ht' _ _
+              rw [ht] at ht'
+              cases ht'
+              exact hstable
+
+/-- the special case without side condition, with (A) and (D) -/
+theorem lexBytes_insert_error (L : Lexer τ) (w : Bytes) (ws : List (τ × Nat)) (allowed : τ → Prop)
+    (hT : LexesAs L w ws) (hA : ∀ t, allowed t → AdjacentStable L w t) (hD : DistantStable L w)
+    (x : Bytes) (off i : Nat) (e : LexErr)
+    (h : lexBytes L x off = .error e) (hb : BoundaryOK allowed off i (lexPrefix L x off)) :
+    lexBytes L (insertAt x (i - off) w) off = .error (e.shift w.length) :=
+  (lexBytes_insert_error_if L w ws allowed (fun _ => True) hT
+    (fun t ht x n _ h1 h2 h3 => hA t ht x n h1 h2 h3)
+    (fun x t n t2 n2 j _ h1 h2 h3 h4 h5 h6 h7 _ => hD x t n t2 n2 j h1 h2 h3 h4 h5 h6 h7)
+    x off i e h hb (fun _ _ _ => trivial)).1
 
 end RsslVerif.Lemmas.Trivia
